@@ -175,6 +175,42 @@ func parseFrame(b []byte) (fi frameInfo) {
 	return fi
 }
 
+// declaredSize returns the Frame_Content_Size the first frame header of an object announces
+// (0 if the object does not start with a zstd frame or announces nothing).
+func declaredSize(b []byte) uint64 {
+	if len(b) < 5 || binary.LittleEndian.Uint32(b) != 0xFD2FB528 {
+		return 0
+	}
+	fhd := b[4]
+	single := fhd&0x20 != 0
+	n := 5
+	if !single {
+		n++
+	}
+	n += []int{0, 1, 2, 4}[fhd&3]
+	var buf [8]byte
+	copy(buf[:], b[min(n, len(b)):])
+	switch fhd >> 6 {
+	case 0:
+		if single {
+			return uint64(buf[0])
+		}
+		return 0
+	case 1:
+		return uint64(binary.LittleEndian.Uint16(buf[:])) + 256
+	case 2:
+		return uint64(binary.LittleEndian.Uint32(buf[:]))
+	}
+	return binary.LittleEndian.Uint64(buf[:])
+}
+
+// maxDeclared: poisoned objects whose header announces more than this are not fed to desync.
+// The zstd decoder allocates (and, on reused memory, clears) the announced size up to 64 GiB
+// before it looks at the data; what that does to the process is the business of the decoder
+// robustness property (C19), and several such cases in parallel shards endanger the machine
+// the check runs on.
+const maxDeclared = 16 << 20
+
 // ---------------------------------------------------------------- corruptions
 
 // Corr is one corruption of a stored object.
